@@ -91,9 +91,23 @@ func VerifC15Restart() {
 		zzverif.Cover("follower-sync")
 	}
 	elapsed += 1
+	// the engine's timestamp oracle may fail once at any of its first calls of the take-over (a PD
+	// hiccup during fail-over); the elector then retries the round
+	of := zzverif.Choose("oracleFault", zzverif.Param("oraclefaults", 3)+1)
+	ncall := 0
+	s.TSOFault = func() bool { ncall++; return of != 0 && ncall == of }
 	go newLE.Campaign()
 	zzverif.FireTickers() // natively: wait for the old lease to run out
 	zzverif.WaitIdle()
+	if of != 0 && ncall >= of {
+		zzverif.Cover("oracle-fault-during-takeover")
+		if !newLE.IsLeader() {
+			elapsed += 1
+			go newLE.Campaign() // next round of the elector
+			zzverif.WaitIdle()
+		}
+	}
+	s.TSOFault = nil
 	zzverif.Assert(newLE.IsLeader(), "second node becomes leader")
 	zzverif.Assert(nb.GetCurrentRevision() >= stored, "everything written before remains visible at the new leader's revision")
 	// guarded write on an existing key keeps working
